@@ -72,6 +72,7 @@ class V:
 
 UNK = V('unk')
 SCALAR = V('scalar')
+NONE = V('none')          # the constant None (an axis argument meaning: all axes)
 
 
 def replace_term(t, a, b):
@@ -253,7 +254,7 @@ class LayoutTyper(Structured):
     def ev(self, e, env, quiet=False):
         rep = (lambda *a, **k: None) if quiet else self.report
         if isinstance(e, ast.Constant):
-            return SCALAR
+            return NONE if e.value is None else SCALAR
         if isinstance(e, ast.Name):
             return env.get(e.id, UNK)
         if isinstance(e, ast.UnaryOp):
@@ -402,6 +403,9 @@ class LayoutTyper(Structured):
         if axis_expr is None or (isinstance(axis_expr, ast.Constant) and axis_expr.value is None):
             return SCALAR
         av = self.axis_value(axis_expr, env)
+        if av.kind == 'none':
+            # axis=None through a local: every axis is reduced; with keepdims the result still broadcasts against the operand
+            return V('arr', arr.a, deps=arr.deps, flags={'kept:all'}) if keepdims else SCALAR
         if av.kind == 'axes' and isinstance(arr.a, tuple) and arr.a[0] == 'varying':
             # the operand's layout changes along the way (a loop consuming axes) but the lookup domain does not
             rep('axis-by-name', node, False,
@@ -605,6 +609,10 @@ class LayoutTyper(Structured):
         if arr.kind != 'arr':
             return UNK
         kept = [f for f in arr.flags if f.startswith('kept:')]
+        if axis_expr is not None and self.axis_value(axis_expr, env).kind == 'none' and 'kept:all' in arr.flags:
+            return SCALAR
+        if axis_expr is None and 'kept:all' in arr.flags:
+            return SCALAR
         if axis_expr is None or not kept:
             return V('arr', ('positional', 'squeeze'), deps=arr.deps)
         av = self.axis_value(axis_expr, env)
